@@ -57,3 +57,6 @@ CLAIMS["C11"] = ("exploration",
     "Exhaustive over all 682 supported commands x 14 context templates, the 26 braced commands with near-misses and every special sequence, plus Hypothesis-generated mixed texts, in every component kind with default and overridden text_convert and per-cell body text_convert; oracle = independent reference converter (written from the statement, frozen command table) whose output and the emitted run are both reduced by the independent reader to ordered events (text with super/sub state, line breaks, page fields, unknown control words). " + _EXPL,
     _READER + " Frozen LaTeX table (data/latex_table.json); one tolerated delimiter blank after >= / <= / \\pagefield.",
     "property-based testing: exhaustive command x template enumeration + Hypothesis texts, differential oracle vs independent reference converter")
+CLAIMS["C09"] = ("exploration",
+    "Hypothesis-generated tables (1-40 rows, 1-6 columns, every body attribute in scalar / per-column / per-row / matrix / recycled-pattern shape, 0-3 removed columns at any position, 1 to many pages, three strategies) plus a per-attribute matrix sweep on a paginated table; direct rule attr[i % R][j % C] per coordinate-tagged cell with colours resolved to RGB, and the metamorphic relation unpaginated == paginated per-cell property maps (page-boundary borders excluded). " + _EXPL,
+    _READER + " Frozen colour table.", "property-based testing: Hypothesis attribute shapes, direct broadcasting rule + metamorphic paginated/unpaginated relation")
